@@ -27,7 +27,7 @@ FRAME_IFACES = ['iter_array', 'iter_array_items', 'iter_series', 'iter_series_it
                 'iter_window_array', 'iter_window_array_items', 'iter_group_labels', 'iter_group_labels_items']
 BATCH_STEPS = ['apply', 'apply_items', 'apply_series', 'apply_element', 'iloc', 'loc_cols', 'mul', 'sum', 'getitem', 'head',
                'apply_except', 'apply_items_except', 'rename', 'sort_index', 'transpose', 'cumsum', 'drop', 'min', 'neg', 'loc_rows', 'tail',
-               'sum_noskip', 'mean', 'max', 'apply_none', 'apply_none_except', 'apply_grow', 'rsub', 'rmul', 'rfloordiv']
+               'sum_noskip', 'mean', 'max', 'apply_none', 'apply_none_except', 'apply_grow', 'rsub', 'rmul', 'rfloordiv', 'apply_list']
 
 
 def gen_cells(ch, nr, j, kind):
@@ -245,7 +245,7 @@ class PoolWorld(WorldBase):
         depth = ch.randint(1, 3)
         chain = [ch.choice(BATCH_STEPS) for _ in range(depth)]
         for i, st_ in enumerate(chain):
-            if st_ in ('sum', 'min', 'mean', 'max', 'sum_noskip', 'apply_element', 'apply_series', 'apply_none', 'apply_none_except'):
+            if st_ in ('sum', 'min', 'mean', 'max', 'sum_noskip', 'apply_element', 'apply_series', 'apply_none', 'apply_none_except', 'apply_list'):
                 chain = chain[:i + 1]  # nothing is chained after a dimension-reducing step
                 break
         op = {'op': 'batch_pool', 'frames': frames, 'chain': chain, 'export': ch.choice(['items', 'to_frame', 'to_bus', 'items_partial', 'to_frame_axis1']),
@@ -570,6 +570,8 @@ class PoolWorld(WorldBase):
                 b = b.apply(functools.partial(pf.frame_to_series, fail_on=fail_label))
             elif step == 'apply_element':
                 b = b.apply(functools.partial(pf.frame_to_element, fail_on=fail_label))
+            elif step == 'apply_list':
+                b = b.apply(functools.partial(pf.frame_to_list, fail_on=fail_label))
             elif step == 'apply_except':
                 b = b.apply_except(functools.partial(pf.frame_fn, fail_on=fail_label), Exception if self._except_any else pf.TaskFailure)
             elif step == 'apply_items_except':
@@ -718,6 +720,8 @@ class PoolWorld(WorldBase):
                         c = pf.frame_to_series(c, fail_on=fail_label)
                     elif step == 'apply_element':
                         c = pf.frame_to_element(c, fail_on=fail_label)
+                    elif step == 'apply_list':
+                        c = pf.frame_to_list(c, fail_on=fail_label)
                     elif step == 'apply_except':
                         c = pf.frame_fn(c, fail_on=fail_label)
                     elif step == 'apply_items_except':
